@@ -24,6 +24,7 @@ META = {
 META["explanation"] += " " + '(SB-eqlen) the equality members of String / StringView / StringStream compare contents only after an equality test of the two lengths.'
 META["explanation"] += " " + '(PR-sortperm) the container-level Sort members reorder only: they call no membership-changing operation and write no element directly.'
 META["explanation"] += " " + 'PR-sort additionally: on every path through the loop body the ranges recursed into or continued with include [start, pivot) and [pivot + 1, end) (linear forms of the range arguments), and every element access has start <= index < end (E-ZONE, under start <= end, which every recursive call re-establishes).'
+META["explanation"] += " " + 'SB-eqlen is a must-analysis on the CFG: "lengths equal" is established on the true edge of a length == test or the false edge of a != test and must hold at every content comparison and at every return of operator== that can answer true.'
 
 SU = "Qentem::StringUtils::"
 
